@@ -171,11 +171,16 @@ def inj_item(st, text):
         c06._arm("token", k)
         try:
             tok.tokenize(text)
-            raised = False
-        except BaseException:  # noqa: BLE001
-            raised = True
+            raised = "no"
+        except c06.Boom:
+            raised = "boom"
+        except BaseException as e:  # noqa: BLE001
+            raised = type(e).__name__
         finally:
+            fired = c06.ARM["n"] >= k
             c06._disarm()
+        if fired and raised != "boom":
+            fails.append("the exception raised at token construction %d was swallowed (call ended with: %s)" % (k, raised))
         again = tokharness.canon(tok.tokenize(text))
         if again != fresh:
             fails.append("after a call aborted at token %d the same object tokenizes differently" % k)
